@@ -135,11 +135,11 @@ func Replay(body func(c *Ctx), choices []int) *Ctx {
 	return c
 }
 
-// ExploreShard enumerates the part of body's execution tree that belongs to shard i of n: the tree is partitioned
-// into the root execution (shard 0) and the subtrees below each alternative of each choice point of the root
-// execution; subtree number j goes to shard j mod n. stop (may be nil) is polled between executions; when it returns
-// true the exploration ends early and Stats.Truncated is set. onExec (may be nil) is called after every execution with
-// the length of the prefix that was replayed (so the caller can tell replayed from new steps).
+// ExploreShard enumerates the part of body's execution tree that belongs to shard `shard` of n. The first UpperBudget
+// executions in breadth-first order (the root execution, its children, ...; at most ShardDepth levels) are run by every
+// shard (as Shadow executions except on shard 0, which is the one that counts and judges them); the subtrees hanging
+// below them are numbered in that same order and subtree j belongs to shard j mod n. stop (may be nil) is polled between executions; when it returns true the
+// exploration ends early and Stats.Truncated is set.
 func ExploreShard(body func(c *Ctx), shard, n int, stop func() bool) Stats {
 	var st Stats
 	account := func(c *Ctx) {
@@ -152,24 +152,65 @@ func ExploreShard(body func(c *Ctx), shard, n int, stop func() bool) Stats {
 			st.MaxDev = d
 		}
 	}
-	root := &Ctx{Shadow: shard != 0 && n > 1}
-	body(root)
-	if !root.Shadow {
-		account(root)
-	}
-	var stack [][]int
-	j := 0
-	for i := len(root.Points) - 1; i >= 0; i-- {
-		for alt := root.Points[i].N - 1; alt >= 1; alt-- {
-			if n <= 1 || j%n == shard {
+	children := func(c *Ctx, from int) [][]int {
+		var out [][]int
+		if len(c.Points) > MaxPoints {
+			st.Truncated = true // a runaway execution: its alternatives are not scheduled (reported as not exhaustive)
+			return nil
+		}
+		for i := len(c.Points) - 1; i >= from; i-- {
+			for alt := c.Points[i].N - 1; alt >= 1; alt-- {
 				np := make([]int, i+1)
 				for k := 0; k < i; k++ {
-					np[k] = root.Points[k].Chosen
+					np[k] = c.Points[k].Chosen
 				}
 				np[i] = alt
-				stack = append(stack, np)
+				out = append(out, np)
+			}
+		}
+		return out
+	}
+	depth := ShardDepth
+	if n <= 1 {
+		depth = 0
+	}
+	// upper part: breadth-first over the first `depth` levels, identical on every shard
+	type node struct {
+		prefix []int
+		level  int
+	}
+	var stack [][]int
+	j, upperRun := 0, 0
+	upper := []node{{nil, 0}}
+	for len(upper) > 0 {
+		nd := upper[0]
+		upper = upper[1:]
+		if (nd.level >= depth || upperRun >= UpperBudget) && n > 1 {
+			if j%n == shard {
+				stack = append(stack, nd.prefix)
 			}
 			j++
+			continue
+		}
+		if n <= 1 {
+			stack = append(stack, nd.prefix)
+			continue
+		}
+		if stop != nil && stop() {
+			st.Truncated = true
+			return st
+		}
+		upperRun++
+		c := &Ctx{prefix: nd.prefix, Shadow: shard != 0}
+		body(c)
+		if len(c.Points) < len(nd.prefix) {
+			panic(ReplayError{fmt.Sprintf("explore: replay divergence: execution ended after %d points, prefix has %d", len(c.Points), len(nd.prefix))})
+		}
+		if !c.Shadow {
+			account(c)
+		}
+		for _, ch := range children(c, len(nd.prefix)) {
+			upper = append(upper, node{ch, nd.level + 1})
 		}
 	}
 	for len(stack) > 0 {
@@ -185,19 +226,20 @@ func ExploreShard(body func(c *Ctx), shard, n int, stop func() bool) Stats {
 			panic(ReplayError{fmt.Sprintf("explore: replay divergence: execution ended after %d points, prefix has %d", len(c.Points), len(prefix))})
 		}
 		account(c)
-		for i := len(c.Points) - 1; i >= len(prefix); i-- {
-			for alt := c.Points[i].N - 1; alt >= 1; alt-- {
-				np := make([]int, i+1)
-				for k := 0; k < i; k++ {
-					np[k] = c.Points[k].Chosen
-				}
-				np[i] = alt
-				stack = append(stack, np)
-			}
-		}
+		stack = append(stack, children(c, len(prefix))...)
 	}
 	return st
 }
+
+// ShardDepth is the maximal number of tree levels every shard enumerates itself before the subtrees are dealt out;
+// UpperBudget bounds the number of executions spent on that (breadth-first, so identical on every shard).
+var (
+	ShardDepth  = 6
+	UpperBudget = 48
+)
+
+// MaxPoints bounds the number of choice points of one execution whose alternatives ExploreShard still schedules.
+var MaxPoints = 4000
 
 // PrefixLen is the number of choices this execution replayed from its prefix.
 func (c *Ctx) PrefixLen() int { return len(c.prefix) }
